@@ -30,8 +30,9 @@ for rel in ("lean/EasyNet/EasyNet.lean", "lean/EasyNet/Driver/Main.lean"):
     b = set(base(rel))
     added = [l for l in open(os.path.join(src, rel)).read().splitlines() if l not in b and l.strip()]
     cur = open(os.path.join(dst, rel)).read()
-    imports = [l for l in added if l.startswith("import ") and l not in cur]
-    runners = [l for l in added if l.strip().startswith(", run") and l not in cur]
+    curlines = set(cur.splitlines())
+    imports = [l for l in added if l.startswith("import ") and l not in curlines]
+    runners = [l for l in added if l.strip().startswith(", run") and l not in curlines]
     if rel.endswith("EasyNet.lean"):
         cur = cur.rstrip("\n") + "\n" + "\n".join(imports) + "\n"
     else:
